@@ -19,6 +19,11 @@
 (* listed by Acc for that counter; the effect of the access takes place on the step out of it.  So two  *)
 (* jobs race iff their Acc sets name one cell and one of them writes: NoRace.                           *)
 (*                                                                                                      *)
+(* Program counters of a job:  init -> resolve [-> sort1 -> sort2] -> copy [-> apply] -> dec1 -> dec2    *)
+(* [-> dec3] -> disp -> done;  sort1/sort2 only for the job that performs the resolution, apply only     *)
+(* without the deep copy, dec3 only with the process-wide buffer (as built those steps are private and   *)
+(* are folded into their neighbours).  A failing decode leaves from dec2 straight to disp.               *)
+(*                                                                                                      *)
 (* The requirement: Complete(j, r) is possible only with r = Solo(description of j).                    *)
 (* Switches (as built: TRUE, TRUE, FALSE, FALSE) let TLC show which discipline each cell needs.         *)
 EXTENDS Integers, Sequences, FiniteSets, TLC
@@ -44,7 +49,6 @@ DefArg(s, f) == IF f \in s.dirty THEN "set" ELSE "def"
 GsOf(s, ip) == IF <<ip, "set">> \in s.gs THEN "set" ELSE IF <<ip, "unset">> \in s.gs THEN "unset" ELSE "none"
 Running(s) == DOMAIN s.jobs
 Pc(s, j) == s.jobs[j].pc
-
 
 -----------------------------------------------------------------------------
 (* accesses in progress *)
